@@ -103,7 +103,7 @@ func verifyOne(path string, opts signers.VerifyOpts) error {
 	if mod.VerifyStream != nil {
 		r, err2 := magic.Decompress(f, opts.Compression)
 		if err2 != nil {
-			return err
+			return err2
 		}
 		sigs, err = mod.VerifyStream(r, opts)
 	} else {
